@@ -31,7 +31,7 @@ def section(text, pattern):
 
 
 for d in sorted(os.listdir(root)):
-    m = re.match(r"^(C\d\d)-m(\d)$", d)
+    m = re.match(r"^(C\d\d)-m(\d+)$", d)
     if not m:
         continue
     path = os.path.join(root, d)
